@@ -418,9 +418,10 @@ def w_c10(args):
                             got = abs_table(be.sqlite.read_query(ops))
                     except Exception as ex:  # noqa: BLE001
                         err = "%s: %s" % (type(ex).__name__, str(ex)[:300])
-                        if b == "pandas" and mode == "null" and kinds[c] == "s" and re.search(C10_TYPEGUARD, err, re.S):
+                        if b == "pandas" and kinds[c] == "s" and re.search(C10_TYPEGUARD, err, re.S):
                             # the unreported column does influence the outcome - through the known type-guard defect
-                            # (a text column whose cells are all null is taken for float): known finding, not a new one
+                            # (a text column whose first cell is null is taken for float; making this column all-null, or
+                            # making it text next to an all-null text column of the other table, trips it): known finding
                             known_hit = "pandas_null_only_text_column_type"
                             stats["KF:" + known_hit] += 1
                             continue
